@@ -542,8 +542,11 @@ func (n *Nodis) Scan(cursor int64, match string, count int64, typ ds.ValueType) 
 		}
 		count--
 		// the record's type is filled in when its value is loaded: the write lock
+		verifTrace("wait", &now, "", m, true)
 		m.Lock()
+		verifTrace("lock", &now, "", m, true)
 		defer m.Unlock()
+		defer verifTrace("unlock", &now, "", m, true)
 		if !n.store.current(m) {
 			// deleted since the snapshot was taken
 			return true
